@@ -1037,6 +1037,13 @@ func (env *SpecEnv) evalQuant(x *SQuant) Val {
 		if strings.HasPrefix(s, "(Array Int ") {
 			val = ArrV{T: v, BN: env.arrLenOfName(b.Type), ElemT: env.elemGoType(b.Type)}
 		}
+		if strings.HasPrefix(b.Type, "*") {
+			// pointer binder (pointers to value-like records): a structured value, so that fields
+			// can be selected
+			if t := in.W.lookupType(env.pkgPath, b.Type[1:]); t != nil && in.isValuelike(t) {
+				val = in.thaw(v, types.NewPointer(t), env.f)
+			}
+		}
 		sub = sub.bind(b.Name, val)
 		// Go-typed binders range over the type's values
 		switch b.Type {
